@@ -1031,3 +1031,63 @@ def check_c19(prop, tier, seed):
     return {'level': 'other', 'violations': violations, 'coverage': cov,
             'assumptions': ['engines are std::mt19937_64 seeded from VERIF_SEED; concurrent sampling uses real threads without a '
                             'scheduler, so a data race on hidden mutable state is caught only if it manifests in the sampled run']}
+
+
+# ------------------------------------------------------------------------------------------------
+# replay of a recorded violation
+# ------------------------------------------------------------------------------------------------
+def replay_file(path):
+    d = json.load(open(path))
+    prop = d.get('property', '?')
+    rp = d.get('replay') or {}
+    kind = rp.get('kind')
+    workdir = os.path.join(OUT, 'work', 'replay')
+    os.makedirs(workdir, exist_ok=True)
+    print('replaying %s: %s' % (path, (d.get('description') or '')[:300]))
+    try:
+        if kind in ('lock', 'lock-hb', 'lock-stream'):
+            bdir = vlib.build(rp.get('n', 4))
+            exs = vlib.replay(bdir, 'lockh', [rp['cls']], rp['program'], rp['schedule'], workdir)
+            ex = exs[0]
+            print('execution status:', ex.status, 'steps:', ex.steps)
+            if kind == 'lock':
+                h = vlib.api_history(ex, fifo=rp.get('fifo', False))
+                cfg = lock_cfg(rp.get('switches', []), workdir, 'replay')
+                rej, _ = vlib.validate_histories(os.path.join(SPEC, 'LockAbsTrace.tla'), cfg, [h], workdir, 'replay', nchunks=1)
+            elif kind == 'lock-hb':
+                st, ok = vlib.hb_stream(ex, rp['program'])
+                h = [norm_hb(e) for e in st]
+                rej, _ = vlib.validate_histories(os.path.join(SPEC, 'HBTrace.tla'), os.path.join(SPEC, 'cfg', 'HBTrace.cfg'), [h], workdir,
+                                                 'replay', nchunks=1)
+            else:
+                h = vlib.node_stream(ex)
+                rej, _ = vlib.validate_histories(os.path.join(SPEC, rp['spec']), os.path.join(SPEC, 'cfg', rp['spec'].replace('.tla', '.cfg')),
+                                                 [h], workdir, 'replay', nchunks=1)
+        elif kind == 'thread':
+            bdir = vlib.build(rp['n'])
+            exs = vlib.replay(bdir, 'threadh', [], rp['program'], rp['schedule'], workdir)
+            ex = exs[0]
+            print('execution status:', ex.status, 'steps:', ex.steps)
+            if rp['spec'].startswith('Id'):
+                h = id_history(ex)
+                sw = {'C05': ['CkUnique'], 'C14': ['CkCapacity'], 'C15': ['CkHeartbeat']}.get(prop, ['CkUnique', 'CkCapacity', 'CkHeartbeat'])
+                cfg = id_cfg(sw, 'replay')
+            else:
+                h = epoch_history(ex)
+                sw = {'C04': ['CkPin'], 'C16': ['CkMono'], 'C17': ['CkList'], 'C20': ['CkSeq', 'CkMono']}.get(prop, ['CkPin', 'CkMono', 'CkList'])
+                cfg = epoch_cfg(sw, 'replay')
+            rej, _ = vlib.validate_histories(os.path.join(SPEC, rp['spec']), cfg, [h], workdir, 'replay', nchunks=1)
+        else:
+            print('this witness is a record, not a schedule: re-run the check itself (tools/vcheck %s)' % prop)
+            print(json.dumps(rp, indent=1)[:2000])
+            return 0
+    except InfraError as e:
+        log('INFRA-ERROR replay: %s' % e)
+        return 2
+    if rej:
+        line = rej[0]['line']
+        print('first unexplained event #%d: %s' % (line, h[line] if line < len(h) else 'end'))
+        print('VIOLATION property=%s replay=%s' % (prop, path))
+        return 1
+    print('the recorded execution is accepted by the specification on the current tree (not reproduced)')
+    return 0
